@@ -430,7 +430,11 @@ def plan(tier):
     quick_single = {"jpsi_3pi_hel": [0, 1, 2], "lc_pkpi_hel": [0, 1, 2], "jpsi_ppbar_hel": [0],
                     "jpsi_pipi_2body_hel": [0], "etac_ll_hel": [0], "psi2s_jpsipipi_hel": [0],
                     "d0_kkk_hel": [0, 1, 2], "jpsi_gpipi_hel": [0], "jpsi_ksp_hel": [0, 1],
-                    "jpsi_gpipi_f2_hel": [0], "jpsi_gkk_hel": [0], "jpsi_ksp1750_hel": [0, 1]}
+                    "jpsi_gpipi_f2_hel": [0], "jpsi_gkk_hel": [0], "jpsi_ksp1750_hel": [0, 1],
+                    # 4-body: a node whose two children both decay, spinful resonances (helicity pairs with
+                    # equal l1-l2 interfere: the only single-topology shape sensitive to the relative frame
+                    # convention of the two resonances), and the cascades
+                    "jpsi_kstkst_hel": [0], "chic0_kstkst_hel": [0], "d0_k3pi_hel": [0, 1, 2]}
     if tier == "thorough":
         for n in reactions.names():
             ntop = len(split_topologies(reactions.load(n)))
